@@ -51,7 +51,13 @@ let parse_disc (ps : string) : n -> bool =
 let uids_of_mask (m : int) : n list =
   List.filter_map (fun i -> if m land (1 lsl (i - 1)) <> 0 then Some (n_of_int i) else None) [1; 2; 3]
 
-let rec parse_zop (s : string) : zop =
+let rec parse_wop (s : string) : wop =
+  match String.split_on_char '.' s with
+  | ["DL"] -> WDeleteAll
+  | ["SN"; n; v] -> WSetName (n_of_string n, n_of_int (2 * ios v))
+  | ["SM"; n; m] -> WSetMode (n_of_string n, ios m <> 0)
+  | _ -> WZ (parse_zop s)
+and parse_zop (s : string) : zop =
   match String.split_on_char '.' s with
   | ["DF"; p; m] -> ZFire (ni p, uids_of_mask (ios m))
   | ["A"; p] -> ZAddDup (ni p)
@@ -159,17 +165,21 @@ let handle (payload : string) : string =
     let xc = parse_cfg ds ps in
     let c = xc.xc_cfg in
     let zc = { zc_xc = xc; zc_disc = parse_disc ps } in
-    let ops = if os = "-" then [] else List.map parse_zop (String.split_on_char ',' os) in
+    let ops = if os = "-" then [] else List.map parse_wop (String.split_on_char ',' os) in
     let b = Buffer.create 1024 in
-    let z = ref (zinit zc) in
+    let w = ref (winit zc) in
+    let seen = Hashtbl.create 16 in
+    let z = ref !w.w_z in
     let y = ref !z.z_y in
     let x = ref !y.y_x in
     let tags = Hashtbl.create 8 in
     let tag t = Hashtbl.replace tags t () in
     Buffer.add_string b ("d=" ^ dump c !x.x_s ^ ";p=" ^ prio_s c !x.x_s);
     let dead = ref false in
-    List.iteri (fun k zo ->
+    List.iteri (fun k wo ->
       if not !dead then begin
+        let zo = match wo with WZ zo -> zo | _ -> ZDevStart (n_of_int 9999) in
+        (match wo with WDeleteAll -> tag "deleteall" | WSetName _ | WSetMode _ -> tag "settings" | _ -> ());
         let o = match zo with ZY yo -> yo | ZFire (p, _) -> YX (XBase (Data p))
                              | ZAddDup p -> YX (XBase (Data p)) | ZDevStart _ -> YX (XBase GC) in
         (match zo with ZAddDup _ | ZDevStart _ -> tag "devapi" | _ -> ());
@@ -204,9 +214,11 @@ let handle (payload : string) : string =
          | XSvcUnregister (n, _) -> if sfind n s.s_store = None then tag "svcunreg-missing"
          | _ -> ());
         (match o with YFrame _ -> tag "frame" | YHousekeeping -> tag "housekeeping" | _ -> ());
-        match zstep zc !z zo with
-        | ZDangling -> dead := true; Buffer.add_string b (Printf.sprintf ";r%d=MODEL-DANGLING" k)
-        | ZOk (z', r) ->
+        match wstep zc !w wo with
+        | WDangling -> dead := true; Buffer.add_string b (Printf.sprintf ";r%d=MODEL-DANGLING" k)
+        | WOk (w', r) ->
+          let z' = w'.w_z in
+          w := w';
           let y' = z'.z_y in
           (match r with RSaved (_ :: _) -> tag "gc" | _ -> ());
           let x' = y'.y_x in
@@ -215,9 +227,24 @@ let handle (payload : string) : string =
           z := z'; y := y'; x := x';
           Buffer.add_string b (Printf.sprintf ";r%d=%s;d%d=%s;c%d=%s;b%d=%s;f%d=%s;p%d=%s;t%d=%s;q%d=%s" k rs k (dump c x'.x_s)
                                  k (cands x'.x_s) k (broker_s c x') k (prefs_s c x') k (prio_s c x'.x_s)
-                                 k (routes_s z') k (pend_s c z'))
+                                 k (routes_s z') k (pend_s c z'));
+          let st = List.sort compare (List.map (fun (n, o) -> (int_of_n n, o)) x'.x_s.s_store) in
+          List.iter (fun (n, _) -> Hashtbl.replace seen n ()) st;
+          let name_s (v : n) = let q, r = N.div_eucl v (n_of_int 2) in
+            (if r = N0 then "" else "U") ^ string_of_n q in
+          let nm o = name_s (w'.w_name o) ^ "/" ^ (if w'.w_htp o then "h" else "l") in
+          Buffer.add_string b (Printf.sprintf ";n%d=%s" k
+            (String.concat "," (List.map (fun (n, o) -> string_of_int n ^ ":" ^ nm o) st)));
+          let sn_l = List.sort compare (Hashtbl.fold (fun n () acc -> n :: acc) seen []) in
+          Buffer.add_string b (Printf.sprintf ";v%d=%s" k
+            (String.concat "," (List.filter_map (fun n ->
+               match w'.w_pmode (n_of_int n) with
+               | Some m -> Some (Printf.sprintf "%d:%s/%s" n
+                                   (match w'.w_pname (n_of_int n) with Some v -> name_s v | None -> "0")
+                                   (if m then "h" else "l"))
+               | None -> None) sn_l)))
       end) ops;
-    let order = ["devapi"; "fire"; "housekeeping"; "frame"; "vetounpatch"; "vetostate"; "vetorepatch"; "vetofresh"; "register"; "unregister"; "svcunreg-missing";
+    let order = ["deleteall"; "settings"; "devapi"; "fire"; "housekeeping"; "frame"; "vetounpatch"; "vetostate"; "vetorepatch"; "vetofresh"; "register"; "unregister"; "svcunreg-missing";
                  "loop"; "multi"; "gc"; "stop"; "repatch"; "nullport"] in
     let prim = match List.filter (fun t -> t <> "gc" && Hashtbl.mem tags t) order with t :: _ -> t | [] -> "plain" in
     let cls = prim ^ (if Hashtbl.mem tags "gc" then "+collect" else "") in
